@@ -672,6 +672,10 @@ def _m_setter(ctx, R):
                 problems.append(("add-to-none", "a path adds the instance to the reference set of None"))
             if not old_none and not removed:
                 problems.append(("no-remove", "a path replaces an existing reference without removing the instance from the old definition's reference set"))
+        for rev, tk in res.get("refusal_tokens", []):
+            if any(t.startswith("W:Definition._references.") or t.startswith("W:Instance._reference.") or t.startswith("W:Instance._pins.") for t in tk):
+                problems.append(("refused-after-write", "the call can still be refused at `%s` after the reference set / reference / outer pins were already changed: "
+                                 "a refused re-point leaves the instance out of step with its definition" % short(rev.stmt, 50)))
         if problems:
             for code, p in sorted(set(problems)):
                 R.bad("M3", "%s|%s" % (f.key, code), f.loc(ev.stmt), "%s: %s" % (f.qualname, p))
